@@ -104,11 +104,11 @@ class call_callback:
             nu, ne = length(a.user_args), length(a.emit_args)
             extra = 0 if is_none(a.user_arg) else 1
             yield "argument-count", length(args) == nw + nu + ne + extra
-            yield "weak-args-first-dereferenced", forall(0, nw, lambda j: eq(item(args, j), val(PROTOCOLS["WeakRef"].deref(st, item(a.weak_args, j), entry=True))))
-            yield "then-user-args", forall(0, nu, lambda j: eq(item(args, nw + j), item(a.user_args, j)))
-            yield "then-emitted-args", forall(0, ne, lambda j: eq(item(args, nw + nu + j), item(a.emit_args, j)))
+            yield "weak-args-first-dereferenced", forall(0, nw, lambda j: opt_eq(item(args, j), val(PROTOCOLS["WeakRef"].deref(st, item(a.weak_args, j), entry=True))))
+            yield "then-user-args", forall(0, nu, lambda j: opt_eq(item(args, nw + j), item(a.user_args, j)))
+            yield "then-emitted-args", forall(0, ne, lambda j: opt_eq(item(args, nw + nu + j), item(a.emit_args, j)))
             if extra:
-                yield "then-user-arg", eq(item(args, nw + nu + ne), val(a.user_arg))
+                yield "then-user-arg", opt_eq(item(args, nw + nu + ne), val(a.user_arg))
             yield "returns-truth-of-result", eq(result, ret)
 
     loops = {
